@@ -5,6 +5,7 @@ import (
 
 	"github.com/pentops/j5/gen/j5/client/v1/client_j5pb"
 	"github.com/pentops/j5/gen/j5/schema/v1/schema_j5pb"
+	"github.com/pentops/j5/lib/id62"
 )
 
 // BuildSwagger converts the J5 Document to a Swagger Document
@@ -79,6 +80,21 @@ func convertSchema(schema *schema_j5pb.Field) (*Schema, error) {
 
 	case *schema_j5pb.Field_Bool:
 		out.SchemaItem.Type = convertBooleanItem(t.Bool)
+
+	case *schema_j5pb.Field_Bytes:
+		out.SchemaItem.Type = formattedStringItem("byte")
+
+	case *schema_j5pb.Field_Date:
+		out.SchemaItem.Type = formattedStringItem("date")
+
+	case *schema_j5pb.Field_Decimal:
+		out.SchemaItem.Type = formattedStringItem("number")
+
+	case *schema_j5pb.Field_Timestamp:
+		out.SchemaItem.Type = formattedStringItem("date-time")
+
+	case *schema_j5pb.Field_Key:
+		out.SchemaItem.Type = convertKeyItem(t.Key)
 
 	case *schema_j5pb.Field_Array:
 		out.SchemaItem.Type, err = convertArrayItem(t.Array)
@@ -160,6 +176,36 @@ func convertStringItem(item *schema_j5pb.StringField) *StringItem {
 	}
 
 	return out
+}
+
+// formattedStringItem is used for the scalar types which are represented as
+// strings in JSON.
+func formattedStringItem(format string) *StringItem {
+	return &StringItem{
+		Format:  Some(format),
+		Example: Maybe(stringExample(&format)),
+	}
+}
+
+func convertKeyItem(item *schema_j5pb.KeyField) *StringItem {
+	if item.Format == nil {
+		return &StringItem{}
+	}
+	switch ft := item.Format.Type.(type) {
+	case *schema_j5pb.KeyFormat_Uuid:
+		return formattedStringItem("uuid")
+	case *schema_j5pb.KeyFormat_Id62:
+		return &StringItem{
+			Format:  Some("id62"),
+			Pattern: Some(id62.PatternString),
+		}
+	case *schema_j5pb.KeyFormat_Custom_:
+		return &StringItem{
+			Pattern: Some(ft.Custom.Pattern),
+		}
+	default:
+		return &StringItem{}
+	}
 }
 
 var integerFormats map[schema_j5pb.IntegerField_Format]string = map[schema_j5pb.IntegerField_Format]string{
